@@ -50,7 +50,7 @@ PROBES = ["identity_sampler", "counting_sampler", "recording_builtin", "builtin_
 
 SCORE_NAMED = ["tpr", "fnr", "tnr", "fpr", "topr", "tonr", "tar", "frr", "far", "trr", "acceptance_rate", "rejection_rate"]
 THR_AT = ["threshold_at_fpr", "threshold_at_fnr", "threshold_at_tpr", "threshold_at_tnr"]
-CALLABLES = ["mean_pos", "sizes", "fnr_fpr_mat", "py_float", "int_count", "spread"]
+CALLABLES = ["mean_pos", "sizes", "fnr_fpr_mat", "py_float", "int_count", "spread", "spread_or_zero"]
 GROUP_CALLABLES = ["groupwise_fnr", "group_sizes"]
 
 
@@ -125,7 +125,7 @@ def gen_fault(rnd, callable_metric, callable_sampler, builtin):
         return f
     if k == "interference":
         return {"kind": "interference", "at": rnd.randint(0, 40), "k": rnd.randint(1, 4)}
-    return {"kind": k, "call": rnd.randint(0, 12)}
+    return {"kind": k, "call": rnd.randint(0, 12), "exc": rnd.choice(list(EXC_TYPES))}
 
 
 def generate(rnd, tier):
@@ -190,6 +190,11 @@ class CallbackFault(Exception):
     pass
 
 
+# user code fails in many ways; some exception types have a meaning of their own inside loops and iterators
+EXC_TYPES = {"CallbackFault": CallbackFault, "StopIteration": StopIteration, "ValueError": ValueError, "KeyError": KeyError,
+             "IndexError": IndexError, "ZeroDivisionError": ZeroDivisionError, "RuntimeError": RuntimeError}
+
+
 def base_metric(name, L):
     if name == "mean_pos":
         return lambda s, **kw: float(np.mean(s.pos)) if len(s.pos) else float("nan")
@@ -203,6 +208,10 @@ def base_metric(name, L):
         return lambda s, **kw: int(len(s.pos) + 2 * len(s.neg))
     if name == "spread":
         return lambda s, **kw: np.array([[s.pos[-1] - s.pos[0] if len(s.pos) else np.nan], [s.neg[-1] - s.neg[0] if len(s.neg) else np.nan]], dtype=float)
+    if name == "spread_or_zero":
+        # a guard returning a Python int in the degenerate case: the return *type* depends on the sample (never on the
+        # source alone: resamples of a constant class are constant)
+        return lambda s, **kw: 0 if len(s.pos) == 0 or s.pos[0] == s.pos[-1] else float(s.pos[-1] - s.pos[0]) / 3.0
     if name == "groupwise_fnr":
         return L.groupwise("fnr")
     if name == "group_sizes":
@@ -225,12 +234,16 @@ class RecMetric:
         if f is not None and f["kind"] == "callback_raise":
             self.fired.append("callback_raise")
             self.calls.append((sample, kwargs, CallbackFault(f"metric call {k}")))
-            raise CallbackFault(f"planned failure of metric call {k}")
+            raise EXC_TYPES.get(f.get("exc"), CallbackFault)(f"planned failure of metric call {k}")
         if f is not None and f["kind"] == "callback_reenter":
             # nested operations on the shared source while the library is mid-loop
             self.fired.append("callback_reenter")
             self.src.cm(np.array([0.0, 1.0]))
             self.src.bootstrap_sample(lib().BootstrapConfig(sampling_method="replacement"))
+            # a double bootstrap: the callback runs bootstrap_metric / bootstrap_ci on the very object being bootstrapped
+            inner_cfg = lib().BootstrapConfig(nb_samples=2, bootstrap_method="quantile", sampling_method="replacement")
+            self.src.bootstrap_metric("tpr", config=inner_cfg, threshold=0.25)
+            self.src.bootstrap_ci("fpr", config=inner_cfg, threshold=-0.25)
             if hasattr(self.src, "groups") and len(self.src.groups):
                 self.src[self.src.groups[0]]
         if f is not None and f["kind"] == "callback_rng":
@@ -251,6 +264,7 @@ class RecSampler:
         self.kind, self.inner, self.spec = kind, inner_config, spec
         self.inputs, self.outputs = [], []
         self.raise_at = {f["call"] for f in faults or [] if f["kind"] == "sampler_raise"}
+        self.raise_exc = next((f.get("exc") for f in faults or [] if f["kind"] == "sampler_raise"), None)
         self.fired = []
         self.mixed = bool(spec.get("__mixed_identity")) if isinstance(spec, dict) else False
 
@@ -260,7 +274,7 @@ class RecSampler:
         if k in self.raise_at:
             self.fired.append("sampler_raise")
             self.outputs.append(None)
-            raise CallbackFault(f"planned failure of sampler call {k}")
+            raise EXC_TYPES.get(self.raise_exc, CallbackFault)(f"planned failure of sampler call {k}")
         if self.kind == "identity":
             out = source
         elif self.kind == "recording":
@@ -305,6 +319,8 @@ def rows_equal(row, value, dtype):
         v = np.asarray(value)
         if v.shape != np.shape(row):
             return False
+        if np.asarray(row).dtype.kind in "iu" and v.dtype.kind == "f" and not np.array_equal(v, np.trunc(v)):
+            return False  # a fractional metric value stored in an integer row was truncated
         return np.array_equal(np.asarray(row), v.astype(dtype), equal_nan=True)
     except Exception:  # noqa: BLE001
         return False
